@@ -1,14 +1,23 @@
 #!/bin/bash
-# usage: tools/seed_run.sh <seed id> <property> [tier]   -- applies seeded/<id>/patch.diff to /repo, runs the check, reverts.
+# usage: tools/seed_run.sh <seed id> <property> [tier]
+# Applies seeded/<id>/patch.diff to a scratch worktree of /repo's HEAD (so concurrent work on /repo is not disturbed),
+# runs the check against it (VERIF_REPO), removes the worktree. With SEED_INPLACE=1 it applies to /repo itself and reverts.
 set -u
 sid=$1; prop=$2; tier=${3:-quick}
-cd /repo || exit 2
-if ! git diff --quiet; then echo "/repo has uncommitted changes; refusing"; exit 2; fi
-git apply /verif/seeded/$sid/patch.diff || { echo "patch does not apply"; exit 2; }
-cd /verif
-python3 tools/check.py $prop --tier $tier > /tmp/seedrun_${sid}_${prop}.log 2>&1
-rc=$?
-git -C /repo checkout -- .
-echo "seed=$sid prop=$prop tier=$tier rc=$rc  $(grep -c '^VIOLATION' /tmp/seedrun_${sid}_${prop}.log) violation line(s)"
-grep -E "^VIOLATION|monitor .* failed|INFRA|DIVERGENCE" /tmp/seedrun_${sid}_${prop}.log | head -${SEED_LINES:-6}
+log=/tmp/seedrun_${sid}_${prop}.log
+if [ "${SEED_INPLACE:-0}" = "1" ]; then
+  cd /repo || exit 2
+  git diff --quiet || { echo "/repo has uncommitted changes; refusing"; exit 2; }
+  git apply /verif/seeded/$sid/patch.diff || { echo "patch does not apply"; exit 2; }
+  (cd /verif && python3 tools/check.py $prop --tier $tier > $log 2>&1); rc=$?
+  git -C /repo checkout -- .
+else
+  wt=/tmp/sr_${sid}_$$
+  git -C /repo worktree add --detach $wt HEAD >/dev/null 2>&1 || exit 2
+  (cd $wt && git apply /verif/seeded/$sid/patch.diff) || { echo "patch does not apply"; git -C /repo worktree remove --force $wt; exit 2; }
+  (cd /verif && VERIF_REPO=$wt python3 tools/check.py $prop --tier $tier > $log 2>&1); rc=$?
+  git -C /repo worktree remove --force $wt
+fi
+echo "seed=$sid prop=$prop tier=$tier rc=$rc  $(grep -c '^VIOLATION' $log) violation line(s)"
+grep -E "^VIOLATION|monitor .* failed|INFRA|DIVERGENCE" $log | cut -c1-330 | head -${SEED_LINES:-4}
 exit $rc
